@@ -415,6 +415,11 @@ func (r *Run) Finish(rule string, floor int, exhaustive bool) int {
 			fmt.Printf("ERROR cannot write evidence: %v\n", err)
 			return 2
 		}
+		if r.Tier == "thorough" {
+			// the latest thorough run is kept next to the latest run of any tier
+			os.MkdirAll(filepath.Join(Root(), "evidence", "thorough"), 0o755)
+			_ = writeJSON(filepath.Join(Root(), "evidence", "thorough", r.Prop+".json"), evd)
+		}
 	}
 	fmt.Printf("%s tier=%s seed=%d evaluations=%d distinct_nontrivial=%d violations=%d known=%d inconclusive=%d wall=%.1fs\n",
 		r.Prop, r.Tier, r.Seed, r.evals, int64(len(r.distinct))+r.bulkDistinct, len(unlisted), len(knownHit), incTotal, time.Since(r.start).Seconds())
